@@ -15,12 +15,13 @@ from common import api_roots, vec_info, tydef, atom_at, cell_term, TRUSTED_COMMO
 from C03 import cancellation
 
 LEVEL = 'other'
-TECHNIQUE = 'real-field normal-form identity checking + rounding-depth certificate + guard-predicate matching over rustc MIR; all backends'
+TECHNIQUE = 'real-field normal-form identity checking + rounding-depth certificate + guard-predicate matching + interval accuracy certificate over rustc MIR; all backends'
 EXPLANATION = ('Decides for all inputs that dot/cross/length/lerp/project/reflect/refract/normalize compute the mathematical expression (so an error confined to one lane, '
                'one sign or one product is reported), bounds rounding by depth d (|err| <= ((1+u)^d - 1) * sum|terms|, no cancelled monomials), and that the normalize family '
-               'takes the fallback exactly when 1/length is not finite and positive. Accuracy of acos_approx, boundary behaviour at overflow/underflow and '
-               'conditioning near parallel vectors are numeric facts outside static reach.')
-LEVEL_NOTE = 'Decides the algebraic identity, rounding depth and guard predicates; not numeric accuracy of approximations. Trusted: rustc MIR, intrinsic table, rules/spec.py, Higham-style forward error bound.'
+               'takes the fallback exactly when 1/length is not finite and positive.  The polynomial arccos behind angle_between / angle_to is certified within 1e-6 of acos on its '
+               'whole domain, binary32 rounding included, by interval abstract interpretation (R-APPROX).  Overflow/underflow boundaries and conditioning near parallel '
+               'vectors are not decided.')
+LEVEL_NOTE = 'Decides the algebraic identity, rounding depth, guard predicates and the arccos accuracy certificate; not conditioning or range boundaries. Trusted: rustc MIR, intrinsic table, rules/spec.py, Higham-style forward error bound.'
 
 CONFIGS_QUICK = ['sse2', 'scalar']
 CONFIGS_THOROUGH = ['sse2', 'sse2-fma', 'scalar', 'coresimd', 'libm', 'neon', 'wasm32']
